@@ -86,6 +86,9 @@ func refMD4(data []byte) [16]byte {
 
 func H_C01_step() {
 	a, b, c, d, x, s := vU32("a"), vU32("b"), vU32("c"), vU32("d"), vU32("x"), vU32("s")
+	// rotation amounts of a 32-bit word: RFC 1320 uses 3..19; what an implementation does with amounts of 32 and more
+	// (shift to zero, or rotate modulo 32) is not part of the algorithm
+	vAssume(s < 32)
 	vCheck(ff(a, b, c, d, x, s) == refFF(a, b, c, d, x, s), "md4/step/ff")
 	vCheck(gg(a, b, c, d, x, s) == refGG(a, b, c, d, x, s), "md4/step/gg")
 	vCheck(hh(a, b, c, d, x, s) == refHH(a, b, c, d, x, s), "md4/step/hh")
